@@ -23,7 +23,10 @@
    readc  <k> (ident name npins p..)*k             -> none | <nshort> <eshort> cable
    readnets <k> (ident name npins p..)*k            -> none | <m> (name ident cable)*m      whole cell
    emitnets <m> (name ident lower array nw (npins p..)*nw)*m -> <k> (ident name npins p..)*k
-   cable printed as: <lower> <array 0/1> <nw> (npins p..)*nw *)
+   file   <str>                                    -> err <reason> | ok <json>       whole file: EdifFile.elab_text
+   cable printed as: <lower> <array 0/1> <nw> (npins p..)*nw
+   json of the whole-file result: strings are arrays of code points; a pin is ["t",port,k] or
+   ["i",instance,port,k] (identifiers); integers of properties are decimal strings *)
 open Edif_model
 
 let rec nat_of_int n = if n <= 0 then O else S (nat_of_int (n - 1))
@@ -92,8 +95,55 @@ let parse_net toks = match toks with
 let show_net ((ident, name), pins) =
   String.concat " " ([tok_of_str ident; tok_of_str name; string_of_int (List.length pins)] @ List.map string_of_int pins)
 
+(* ---- whole-file model (Fmt/EdifFile.v) ---- *)
+(* decimal digits of a positive, by doubling over the bits (most significant first) *)
+let dec_of_pos p =
+  let rec bits p acc = match p with XH -> true :: acc | XO q -> bits q (false :: acc) | XI q -> bits q (true :: acc) in
+  let digits = ref [0] in   (* least significant first *)
+  List.iter (fun b ->
+      let carry = ref (if b then 1 else 0) in
+      digits := List.map (fun d -> let v = 2 * d + !carry in carry := v / 10; v mod 10) !digits;
+      if !carry > 0 then digits := !digits @ [!carry]) (bits p []);
+  String.concat "" (List.rev_map string_of_int !digits)
+let dec_of_z = function Z0 -> "0" | Zpos p -> dec_of_pos p | Zneg p -> "-" ^ dec_of_pos p
+
+let js s = "[" ^ String.concat "," (List.map (fun c -> string_of_int (int_of_n c)) s) ^ "]"
+let jopt f = function None -> "null" | Some x -> f x
+let jlist f l = "[" ^ String.concat "," (List.map f l) ^ "]"
+let jbool b = if b then "1" else "0"
+let jpin = function
+  | PTop (p, k) -> "[\"t\"," ^ js p ^ "," ^ dec_small k ^ "]"
+  | PInst (i, p, k) -> "[\"i\"," ^ js i ^ "," ^ js p ^ "," ^ dec_small k ^ "]"
+let jval = function
+  | PVInt z -> "[\"int\",\"" ^ dec_of_z z ^ "\"]"
+  | PVStr s -> "[\"str\"," ^ js s ^ "]"
+  | PVBool b -> "[\"bool\"," ^ jbool b ^ "]"
+let jprop p = "{\"ident\":" ^ js p.pr_ident ^ ",\"orig\":" ^ jopt js p.pr_orig ^ ",\"val\":" ^ jval p.pr_val ^ "}"
+let jport p = "{\"name\":" ^ js p.po_name ^ ",\"ident\":" ^ js p.po_ident ^ ",\"dir\":" ^ dec_small p.po_dir
+              ^ ",\"width\":" ^ dec_small p.po_width ^ ",\"array\":" ^ jbool p.po_array ^ "}"
+let jinst i = "{\"name\":" ^ js i.in_name ^ ",\"ident\":" ^ js i.in_ident ^ ",\"ref\":"
+              ^ jopt (fun (l, c) -> "[" ^ js l ^ "," ^ js c ^ "]") i.in_ref ^ ",\"props\":" ^ jlist jprop i.in_props ^ "}"
+let jcab ((nm, idt), c) = "{\"name\":" ^ js nm ^ ",\"ident\":" ^ js idt ^ ",\"lower\":" ^ dec_small c.c_lower
+                          ^ ",\"array\":" ^ jbool c.c_array ^ ",\"wires\":" ^ jlist (jlist jpin) c.c_wires ^ "}"
+let jcell c = "{\"name\":" ^ js c.ce_name ^ ",\"ident\":" ^ js c.ce_ident ^ ",\"view\":" ^ jopt js c.ce_view
+              ^ ",\"ports\":" ^ jlist jport c.ce_ports ^ ",\"insts\":" ^ jlist jinst c.ce_insts
+              ^ ",\"cabs\":" ^ jlist jcab c.ce_cabs ^ "}"
+let jlib l = "{\"name\":" ^ js l.li_name ^ ",\"ident\":" ^ js l.li_ident ^ ",\"cells\":" ^ jlist jcell l.li_cells ^ "}"
+let jtop t = "{\"name\":" ^ js t.tp_name ^ ",\"ident\":" ^ js t.tp_ident ^ ",\"lib\":" ^ js t.tp_lib ^ ",\"cell\":" ^ js t.tp_cell ^ "}"
+let jfile f = "{\"name\":" ^ js f.nf_name ^ ",\"ident\":" ^ js f.nf_ident ^ ",\"libs\":" ^ jlist jlib f.nf_libs
+              ^ ",\"top\":" ^ jopt jtop f.nf_top ^ "}"
+let ferr_name = function
+  | FeLex -> "lex" | FeEof -> "eof" | FeShape -> "shape" | FeMultiple -> "multiple" | FeNotImpl -> "notimpl"
+  | FeIllegalId -> "illegal-identifier" | FeDupSibling -> "duplicate-sibling" | FeUndeclared -> "undeclared"
+  | FeIndex -> "index" | FeJoinedTwice -> "joined-twice" | FeNoRef -> "no-reference" | FeNetName -> "net-name"
+  | FeUnsupported -> "unsupported"
+
 let handle line =
   match String.split_on_char ' ' line with
+  | ["file"; s] ->
+    (match elab_text (str_of_tok s) with
+     | Err e -> "err " ^ ferr_name e
+     | Ok f -> "ok " ^ jfile f)
   | "topo" :: rest ->
     let (objs, rest) = take_list one_int rest in
     let (adj, _) = take_list (fun l -> match l with
